@@ -387,3 +387,59 @@ Proof.
     rewrite Hrs in Hnth. unfold new_rules in Hnth. apply nth_error_In in Hnth. apply in_map_iff in Hnth.
     destruct Hnth as ([[d0 t] pb0] & <- & _). simpl. auto.
 Qed.
+
+(** ** the bound the checker tests, from the invariant of the abstraction *)
+Open Scope Q_scope.
+Lemma Qmake_sub_lt F a n : (F - a * P18 < n * P18)%Z -> (F # P18p) - inject_Z a < inject_Z n.
+Proof.
+  intros H. unfold Qlt, Qminus, Qplus, Qopp, inject_Z. cbn [Qnum Qden]. rewrite Pos.mul_1_r, P18p_eq. lia.
+Qed.
+Lemma inject_le_Qmake a F : (a * P18 <= F)%Z -> inject_Z a <= F # P18p.
+Proof. intros H. unfold Qle, inject_Z. cbn [Qnum Qden]. rewrite P18p_eq. lia. Qed.
+
+Lemma share_ok_from_bounds sh F :
+  (1 <= sh_n sh)%Z ->
+  F # P18p <= sh_fair sh -> sh_fair sh <= (F + sh_eps sh)%Z # P18p ->
+  (sh_paid sh * P18 <= F)%Z -> (F - sh_paid sh * P18 < sh_n sh * P18)%Z ->
+  share_ok sh = true.
+Proof.
+  intros Hn Hlo Hhi Hover Hunder. unfold share_ok. destruct (Z.eqb_spec (sh_n sh) 0) as [Hz|_]; [lia|].
+  pose proof (Qmake_sub_lt _ _ _ Hunder) as H2. pose proof (inject_le_Qmake _ _ Hover) as H3.
+  rewrite Qmake_plus in Hhi.
+  assert (0 < inject_Z (sh_n sh)) as Hnpos by (unfold Qlt, inject_Z; simpl; lia).
+  change (Z.to_pos P18) with P18p.
+  assert (- (inject_Z (sh_n sh) + (sh_eps sh # P18p)) < inject_Z (sh_paid sh) - sh_fair sh) as L1 by lra.
+  assert (inject_Z (sh_paid sh) - sh_fair sh < inject_Z (sh_n sh)) as L2 by lra.
+  rewrite (proj1 (Qlt_alt _ _) L1), (proj1 (Qlt_alt _ _) L2). reflexivity.
+Qed.
+Close Scope Q_scope.
+
+Lemma accrued_bounds rps l D : 0 <= rps -> 0 <= l ->
+  accrued rps l D * P18 <= Z.max 0 (rps * l - D * P18) /\ rps * l - D * P18 - accrued rps l D * P18 < P18 /\ 0 <= accrued rps l D.
+Proof.
+  intros Hr Hl. unfold accrued. assert (0 <= rps * l) as HA by nia.
+  rewrite Z.quot_div_nonneg by (pose proof P18_pos; lia). pose proof (div_P18 _ HA) as Hd. pose proof P18_pos. nia.
+Qed.
+
+(** the farmer is recorded: the close adds what is payable now, as one more interaction *)
+Lemma share_ok_present sh x r l D :
+  finv x -> Rsh sh x -> a_rps x = r_rps r -> a_l x = l -> a_D x = D ->
+  share_ok (close_sh r l D sh) = true.
+Proof.
+  intros [Hr Hl HD Hn Hlo Hhi Hov] (Rp & Rn & Re & Rlo & Rhi) E1 E2 E3. unfold fowed in *. rewrite E1, E2, E3 in *.
+  destruct (accrued_bounds (r_rps r) l D Hr Hl) as (B1 & B2 & B3).
+  apply (share_ok_from_bounds _ (a_fair x)); unfold close_sh; cbn [sh_n sh_paid sh_eps sh_fair]; try assumption; lia.
+Qed.
+
+(** the farmer is not recorded (he has left, or never came) *)
+Lemma share_ok_absent sh x :
+  finv x -> Rsh sh x -> Rz sh x -> a_l x = 0 -> a_D x = 0 -> share_ok sh = true.
+Proof.
+  intros [Hr Hl HD Hn Hlo Hhi Hov] (Rp & Rn & Re & Rlo & Rhi) HZ E2 E3. unfold fowed in *. rewrite E2, E3 in *.
+  destruct (Z.eq_dec (a_n x) 0) as [Hn0|Hn1].
+  - destruct (HZ Hn0) as (Z1 & Z2 & Z3 & _). unfold share_ok. rewrite Rn, Hn0, Rp, Z1. simpl.
+    rewrite Z2, Z3 in *. assert (Qeq (sh_fair sh) 0) as Hq.
+    { unfold Qeq, Qle in *. cbn [Qnum Qden] in *. rewrite P18p_eq in *. pose proof P18_pos. simpl in Rhi. nia. }
+    apply Qeq_alt in Hq. rewrite Hq. reflexivity.
+  - apply (share_ok_from_bounds _ (a_fair x)); try assumption; lia.
+Qed.
